@@ -95,6 +95,8 @@ func Unmarshal(data []byte) (any, error) {
 
 type internalStruct struct {
 	PointerNum uint32 `json:",omitempty"`
+	// NilPointerLevel is the 1-based level of the nil pointer in a pointer chain (0: no nil pointer)
+	NilPointerLevel uint32 `json:",omitempty"`
 
 	// based type
 	Type      string          `json:",omitempty"`
@@ -132,7 +134,12 @@ func internalMarshal(v any) (*internalStruct, error) {
 	for rt.Kind() == reflect.Ptr {
 		ret.PointerNum++
 		if rv.IsNil() {
+			// remember at which level the nil pointer sits and keep counting the static pointer depth,
+			// so that multi-level pointers come back with the identical type and nil level
+			ret.NilPointerLevel = ret.PointerNum
+			rt = rt.Elem()
 			for rt.Kind() == reflect.Ptr {
+				ret.PointerNum++
 				rt = rt.Elem()
 			}
 			key, ok := rm[rt]
@@ -275,6 +282,15 @@ func internalUnmarshal(v *internalStruct) (any, error) {
 			return nil, fmt.Errorf("unknown type key: %v", v.Type)
 		}
 		pResult := reflect.New(resolvePointerNum(v.PointerNum, t))
+		if v.NilPointerLevel > 1 && v.NilPointerLevel <= v.PointerNum {
+			// re-create the non-nil outer pointers above the nil one
+			cur := pResult.Elem()
+			for i := uint32(1); i < v.NilPointerLevel; i++ {
+				cur.Set(reflect.New(cur.Type().Elem()))
+				cur = cur.Elem()
+			}
+			return pResult.Elem().Interface(), nil
+		}
 		err := sonic.Unmarshal(v.JSONValue, pResult.Interface())
 		if err != nil {
 			return nil, fmt.Errorf("unmarshal type[%s] fail: %v, data: %s", v.Type, err, string(v.JSONValue))
